@@ -77,6 +77,7 @@ func RunWorker(chk *Check, tier string, seed int64, from, stride, n int, outPath
 			buf := make([]byte, 4<<20)
 			buf = buf[:runtime.Stack(buf, true)]
 			os.Stderr.Write(buf)
+			CleanFuseMounts(dir)
 			return 3
 		}
 		_ = enc.Encode(c.record(time.Since(t0)))
@@ -191,12 +192,48 @@ func RunParent(chk *Check, opt Options) int {
 				cmd.SysProcAttr = &syscall.SysProcAttr{Setpgid: true}
 				racelog := filepath.Join(scratch, fmt.Sprintf("race-w%d-%d", w, relaunch))
 				cmd.Env = append(os.Environ(), "GORACE=halt_on_error=0 log_path="+racelog, "GOTRACEBACK=all")
-				runErr := cmd.Run()
+				runErr := cmd.Start()
+				if runErr == nil {
+					// hard watchdog: a worker that stops writing to its record file for
+					// far longer than the per-case watchdog allows is wedged (it cannot
+					// even run its own watchdog, e.g. threads stuck in the kernel on a
+					// FUSE mount): abort its mounts and kill it
+					waited := make(chan struct{})
+					go func() {
+						limit := chk.CaseTimeout
+						if limit == 0 {
+							limit = 120 * time.Second
+						}
+						if opt.Tier == "thorough" {
+							limit *= 3
+						}
+						limit += 90 * time.Second
+						last, lastSize := time.Now(), int64(-1)
+						for {
+							select {
+							case <-waited:
+								return
+							case <-time.After(5 * time.Second):
+							}
+							if st, err := os.Stat(out); err == nil && st.Size() != lastSize {
+								last, lastSize = time.Now(), st.Size()
+							}
+							if time.Since(last) > limit {
+								CleanFuseMounts(wscratch)
+								_ = syscall.Kill(-cmd.Process.Pid, syscall.SIGKILL)
+								last = time.Now()
+							}
+						}
+					}()
+					runErr = cmd.Wait()
+					close(waited)
+				}
 				ef.Close()
-				// kill stragglers in the process group
+				// kill stragglers in the process group and drop mounts they left
 				if cmd.Process != nil {
 					_ = syscall.Kill(-cmd.Process.Pid, syscall.SIGKILL)
 				}
+				CleanFuseMounts(wscratch)
 				lastBegun, ended := -1, map[int]bool{}
 				if rf, err := os.Open(out); err == nil {
 					sc := bufio.NewScanner(rf)
